@@ -108,7 +108,7 @@ seed={
 'C19-e-2':('CLI skips `execute` for files without stanzas (globals never checked)',False,'stanza-less DSL files with declared globals'),
 'C19-e-3':('CLI pre-check of declared globals ignores defaults',True,''),
 'C12-f-1':('lazy: process-wide atomic nesting counter for value evaluation, limit 4096 (depths of concurrent executions add up)',False,'sub-check (c): several workers deep inside chains of > 1000 lazy values at the same time'),
-'C12-f-2':('per-`scan` memo behind an `RwLock`; read-to-write upgrade with a stale index (cross-talk between threads)',True,''),
+'C12-f-2':('per-`scan` memo behind an `RwLock`; read-to-write upgrade with a stale index (cross-talk between threads)',True,'(caught through the immutability clause: the memo is part of the `Debug` rendering of the loaded file, which changes with every execution — not through the race itself, which needs pre-emption between two uncontended lock operations, 10.4)'),
 'C12-f-3':('`print` holds the stderr lock while its arguments (caller functions, polls) are evaluated',False,'— not caught, and deliberately so: executions are serialised but every result equals the isolated run; it fails only for callers whose callbacks wait for another execution, which the quantifier does not include. Another sub-agent supplied the same mechanism as a *benign* change (benign/agent-f3-2), which must not alarm'),
 'C12-f-4':('`scan` loops give up after 1 s of monotonic time (`Instant`)',True,''),
 'C12-f-5':('lazy: final sweep forces a `HashSet` of unforced thunks (which failing value is reported depends on hash order)',True,''),
